@@ -9,21 +9,21 @@ package tdrop
 // "Sampled dropping tracks the configured percentage to within one record at every prefix of the matched stream":
 // |100*dropped - rate*matched| <= 100 is an invariant of the transform's state (with rate in 1..100)
 //@ pure func samplingok(tf *dropTransform) bool :=
-//@     1 <= tf.targetRate && tf.targetRate <= 100 && 0 <= tf.totalDropped && tf.totalDropped <= tf.totalMatched && tf.totalMatched < 36028797018963968
+//@     1 <= tf.targetRate && tf.targetRate <= 100 && 0 <= tf.totalDropped && tf.totalDropped <= tf.totalMatched
 //@  && 100 * tf.totalDropped <= tf.targetRate * tf.totalMatched + 100 && 100 * tf.totalDropped >= tf.targetRate * tf.totalMatched - 100
 //@ pure func validdrop(tf *dropTransform, r *base.LogRecord) bool :=
 //@     tf != nil && bmatch.validmatcher(tf.matcher, r) && tf.countDropped != nil && (tf.targetRate < 100 ==> tf.countRetained != nil)
 
 //@ func (tf *dropTransform) Transform(record *base.LogRecord) base.FilterResult
-//@   requires record != nil && validdrop(tf, record) && samplingok(tf)
+//@   requires record != nil && validdrop(tf, record) && samplingok(tf) && tf.totalMatched < 36028797018963968
 //@   modifies tf.totalMatched, tf.totalDropped
 //@   ensures[sampling-within-one-record] samplingok(tf)
-//@   ensures[non-matching-untouched] !bmatch.matchall(tf.matcher, record) ==> result == base.PASS && unchanged(tf.totalMatched, tf.totalDropped)
+//@   ensures[non-matching-untouched] !bmatch.matched(tf.matcher, record) ==> result == base.PASS && unchanged(tf.totalMatched, tf.totalDropped)
 //@        && ncalls(tf.countDropped) == old(ncalls(tf.countDropped)) && ncalls(tf.countRetained) == old(ncalls(tf.countRetained))
-//@   ensures[rate-100-drops-every-match] bmatch.matchall(tf.matcher, record) && tf.targetRate == 100 ==> result == base.DROP
-//@   ensures[one-counter-per-match] bmatch.matchall(tf.matcher, record) ==>
+//@   ensures[rate-100-drops-every-match] bmatch.matched(tf.matcher, record) && tf.targetRate == 100 ==> result == base.DROP
+//@   ensures[one-counter-per-match] bmatch.matched(tf.matcher, record) ==>
 //@        (result == base.DROP && ncalls(tf.countDropped) == old(ncalls(tf.countDropped)) + 1 && ncalls(tf.countRetained) == old(ncalls(tf.countRetained)))
 //@     || (result == base.PASS && ncalls(tf.countRetained) == old(ncalls(tf.countRetained)) + 1 && ncalls(tf.countDropped) == old(ncalls(tf.countDropped)))
-//@   ensures[matched-counted] bmatch.matchall(tf.matcher, record) && tf.targetRate < 100 ==> tf.totalMatched == old(tf.totalMatched) + 1
+//@   ensures[matched-counted] bmatch.matched(tf.matcher, record) && tf.targetRate < 100 ==> tf.totalMatched == old(tf.totalMatched) + 1
 //@        && tf.totalDropped == old(tf.totalDropped) + (result == base.DROP ? 1 : 0)
-//@   canary ensures bmatch.matchall(tf.matcher, record) ==> result == base.DROP
+//@   canary ensures bmatch.matched(tf.matcher, record) ==> result == base.DROP
